@@ -182,12 +182,20 @@ func parseCredential(b []byte, p *int, c *CCache, e *binary.ByteOrder) (cred *Cr
 	// The flags are a 32 bit integer stored in the byte order of the file (native order in versions 1 and 2).
 	// Its most significant bit is flag 0 of the KerberosFlags bit string.
 	binary.BigEndian.PutUint32(cred.TicketFlags.Bytes, uint32(readInt32(b, p, e)))
+	// An address and an authorization data entry each take at least six bytes (16 bit type and 32 bit length).
+	// Check the counts against the data that is left before allocating.
 	l := int(readInt32(b, p, e))
+	if l < 0 || l > (len(b)-*p)/6 {
+		return cred, errors.New("Invalid credential cache data. Address count exceeds the data available")
+	}
 	cred.Addresses = make([]types.HostAddress, l, l)
 	for i := range cred.Addresses {
 		cred.Addresses[i] = readAddress(b, p, e)
 	}
 	l = int(readInt32(b, p, e))
+	if l < 0 || l > (len(b)-*p)/6 {
+		return cred, errors.New("Invalid credential cache data. Authorization data count exceeds the data available")
+	}
 	cred.AuthData = make([]types.AuthorizationDataEntry, l, l)
 	for i := range cred.AuthData {
 		cred.AuthData[i] = readAuthDataEntry(b, p, e)
